@@ -162,7 +162,7 @@ def member_sym(x, i, keep_adj):
 
 
 @unit('C12', 'get_zero_crossings_array_indices/unbounded', functions=[PK + 'get_zero_crossings_array_indices'],
-      cases=[dict(keep_adj=True), dict(keep_adj=False)], modes=('unbounded',), budget_ms=20000)
+      cases=[dict(keep_adj=True), dict(keep_adj=False)], modes=('unbounded',), budget_ms=90000)
 def zero_crossings_unbounded(V, keep_adj):
     st = {}
 
@@ -184,7 +184,26 @@ def zero_crossings_unbounded(V, keep_adj):
             out.prove('every-entry-in-range', T.sand(T.sle(0, z[k]), T.slt(z[k], n)))
             out.prove('every-entry-is-a-crossing', member_sym(x, z[k], keep_adj))
         for k in V.idx(1, m, 'k1'):
-            out.prove('ascending-without-duplicates', T.slt(z[k - 1], z[k]))
+            # quantifier-free proof from hand-picked instances (no E-matching): sortedness at the two adjacent sorted positions,
+            # the permutation axioms there (pre-images p, q, distinct because the inverse differs), strict ascent of every
+            # where() result at (p, q) / (q, p), also shifted by the length of each where() result (the concatenation
+            # boundary) and mapped through each where() function (the filtered zeros are take(where(..), where(..))), and
+            # the membership axioms of where() at all of those positions
+            cache = out.cx.cache
+            singles, pairs = [], []
+            for a, b in ((T.ssub(k, 1), k), (T.ssub(k, 2), T.ssub(k, 1))):
+                singles += [a, b]
+                pairs += [(a, b)]
+                for sc in cache.get('sort-calls', []):
+                    p_, q_ = T.N(sc['fwd'](T.to_int_term(a))), T.N(sc['fwd'](T.to_int_term(b)))
+                    singles += [p_, q_]
+                    pairs += [(p_, q_), (q_, p_)]
+                    for wc in cache.get('where-calls', []):
+                        ps, qs = T.ssub(p_, wc['m']), T.ssub(q_, wc['m'])
+                        pw, qw = T.N(wc['w'](T.to_int_term(p_))), T.N(wc['w'](T.to_int_term(q_)))
+                        singles += [ps, qs, pw, qw]
+                        pairs += [(ps, qs), (qs, ps), (pw, qw), (qw, pw)]
+            out.prove_qf('ascending-without-duplicates', T.slt(z[k - 1], z[k]), singles=singles, pairs=pairs)
         # completeness (every crossing is reported) needs the inverse permutation of the sort and both where-position
         # functions as instantiation hints; z3 does not find them within budget, so completeness is covered by the bounded
         # membership clauses of `get_zero_crossings_array_indices` above and is NOT claimed unbounded.
